@@ -884,6 +884,88 @@ def _make_expr(rng, avail, all_names, want):
     return x
 
 
+def _complement(c):
+    import copy
+    if c['e'] == 'cmp':
+        return dict(c, op={'==': '!=', '!=': '==', '<': '>=', '>=': '<', '>': '<=', '<=': '>'}[c['op']])
+    if c['e'] == 'not':
+        return copy.deepcopy(c['a'])
+    if c['e'] in ('ref', 'def'):
+        return {'e': 'not', 'a': copy.deepcopy(c)}
+    return LIT(True)
+
+
+def gen_repeated(rng):
+    """ONE condition text standing in several blocks of one program while the node it refers to changes in between (a plain
+    modification, a modification made by the selected clause of the earlier block, a definition arriving between two
+    definedness tests).  The condition is evaluated "at the place where the block stands": what an earlier block with the
+    same text found is no answer for a later one.  All blocks are closed by @end (no known defective shape is involved)."""
+    import copy
+    kind = rng.choice(['int', 'int', 'bool', 'str', 'defined'])
+    items, uid = [], [0]
+
+    def nm(p):
+        uid[0] += 1
+        return '%s%d' % (p, uid[0])
+    if kind == 'int':
+        a = rng.randint(0, 9)
+        b = a + rng.choice([-3, -1, 1, 2, 5])
+        op = rng.choice(['==', '!=', '<', '>', '<=', '>='])
+        cond = {'e': 'cmp', 'op': op, 'n': 'm', 'c': a + rng.choice([0, 0, 1, -1])}
+        vals, ty = [a, b, a, b + 1], 'int'
+    elif kind == 'bool':
+        a = rng.random() < 0.5
+        cond = rng.choice([{'e': 'ref', 'n': 'm'}, {'e': 'not', 'a': {'e': 'ref', 'n': 'm'}}])
+        vals, ty = [a, not a, a, not a], 'bool'
+    elif kind == 'str':
+        cond = {'e': 'cmp', 'op': '==', 'n': 'm', 'c': 'abc'}
+        vals, ty = rng.choice([['abc', 'abd', 'abc', 'x'], ['x', 'abc', 'y', 'abc']]), 'str'
+    else:
+        cond = rng.choice([{'e': 'def', 'n': 'm'}, {'e': 'not', 'a': {'e': 'def', 'n': 'm'}}])
+        vals, ty = [None, 4, 5, 6], 'int'
+    if rng.random() < 0.3:
+        cond = {'e': rng.choice(['and', 'or']), 'a': cond, 'b': LIT(rng.random() < 0.5)}
+    if rng.random() < 0.5:
+        items.append(D(nm('a'), 'int', rng.randint(1, 9)))
+    nblocks = rng.choice([2, 2, 3, 4])
+    where = rng.choice(['between', 'between', 'in-selected-clause', 'in-else-or-first'])
+    defined = False
+    for k in range(nblocks):
+        v = vals[k]
+        change = None
+        if v is not None:
+            change = dict(M('m', v), ty=ty) if defined else D('m', ty, v)
+            defined = True
+        body = lambda: [D(nm('x'), 'int', rng.randint(1, 99))]
+        if change is not None and (k == 0 or where == 'between'):
+            items.append(change)
+            change = None
+        # where the change is made by a clause of THIS block it becomes visible to the next block only
+        nxt = None
+        if k + 1 < nblocks and where != 'between' and vals[k + 1] is not None and defined:
+            nxt = dict(M('m', vals[k + 1]), ty=ty)
+            vals[k + 1] = None if kind != 'defined' else None
+        c1, c2 = body(), body()
+        if nxt is not None:
+            c1.append(copy.deepcopy(nxt))        # whichever clause is selected makes the change
+            c2.append(copy.deepcopy(nxt))
+        blk = B([(copy.deepcopy(cond), c1)], c2, 'end')
+        shape = rng.choice(['plain', 'plain', 'nested-in-true', 'under-group', 'with-second-clause'])
+        if shape == 'under-group' and nxt is not None:
+            shape = 'plain'                       # a modification under a group would address another node (g.m)
+        if shape == 'with-second-clause':
+            c3 = body() + ([copy.deepcopy(nxt)] if nxt is not None else [])
+            blk = B([(copy.deepcopy(cond), c1), (_complement(cond), c3)], c2, 'end')
+        if shape == 'nested-in-true':
+            blk = B([(LIT(True), [blk, D(nm('t'), 'int', 7)])], None, 'end')
+        elif shape == 'under-group':
+            blk = G(nm('g'), [blk])
+        items.append(blk)
+        if rng.random() < 0.4:
+            items.append(D(nm('z'), 'int', rng.randint(1, 9)))
+    return dict(t='prog', fam='repeated-condition', items=items, kind=kind, where=where)
+
+
 def gen_mustfail(rng):
     """misplaced @else / @end inserted into a random program that uses explicit @end only"""
     for _ in range(50):
